@@ -19,6 +19,12 @@ CHECKS = {
  "C19": dict(cat="exploration", design="§3 C19", technique="bounded exhaustive enumeration of erroneous sources (C12 enumeration + error injected at every token boundary of multi-line / multi-byte bases)",
    text="Every source of the C12 enumeration plus 5 offending tokens injected at every token boundary of 12 multi-line bases (LF / CRLF, tabs, multi-byte comments and strings before the error). Each parse diagnostic's span must lie within the text the diagnostic carries, on char boundaries, and render through miette; each located analysis diagnostic must lie within the input and, for not-in-scope, cover exactly the reported name.",
    note="Diagnostics with dummy spans are only counted; inputs that crash the front end belong to C12."),
+ "C13": dict(cat="exploration", design="§3 C13", technique="bounded exhaustive enumeration of single textual/semantic mutations of a program corpus, oracle accepted => lowerable",
+   text="Every source of the C12 enumeration plus, over the example corpus and two feature bases: every identifier token replaced by every other identifier of the program and by the built-in names, every call arity changed to 0 and +1, every line deleted / duplicated, every literal malformed, local chains of every length 1..16. For every program the analyzer accepts, lowering of every tx and Workspace::lower must succeed without panic.",
+   note="Known analyzer gaps are listed per input (known/C13.corpus.inputs) for corpus-derived programs and per signature for grammar-derived ones; a new accepted-but-unlowerable corpus program is reported even if its failure looks like a known one."),
+ "C09": dict(cat="exploration", design="§3 C09", technique="bounded exhaustive enumeration per axis (constructor index, field shapes <= 2 deviations, boundary integers, byte lengths) with an independent Plutus-Data reader as oracle",
+   text="Programs generated from source run through the whole pipeline; the inline datum / redeemer bytes of the emitted transaction are decoded with a Plutus-Data reader written from the plutus-core CDDL on top of an independent CBOR reader and compared with the value the expression denotes. Complete per axis: (N, i) constructor pairs, every +-2^k / +-(2^k+-1) integer, every byte length 0..100, all field-shape executions with <= 2 deviations, each in datum and redeemer position.",
+   note="Expected encoding conventions (records = Constr 0, Bool = Constr 0/1, unit = Constr 0, strings as bytes) are taken from the language documentation; my reader is the trusted decoder."),
 }
 PENDING = {}
 
